@@ -13,6 +13,7 @@
 import DuckModel.Wire
 import DuckModel.Spec.Tree
 import DuckModel.Spec.Render
+import DuckModel.Sdk.FlowHalt
 
 namespace Duck.Drv.C04
 open Duck Duck.Wire Duck.Spec
@@ -106,9 +107,15 @@ def scriptText (b : Block) : Str :=
   (b.flatten.flatMap fun si =>
     renderLine { args := (si.args.getD []).map fun _ => (0, false) } si ++ ['\n'])
 
+/-- `c04` : structured tree (goto machine + tree interpreter);
+    `c13s` : a structured tree run by the halt-aware goto machine (`interpRunH`);
+    `c04raw` : the same encoding used for an arbitrary sequence of lines (keyword probes that
+    are not well-nested trees): only the goto machine runs, the spec column is `fuel` (= no
+    verdict from the tree interpreter) -/
 def handle (toks : List String) : Option String :=
   match toks with
-  | ["c04", tree, vars, fuel] =>
+  | [op, tree, vars, fuel] =>
+    if op != "c04" && op != "c04raw" && op != "c13s" then none else
     match decBlock (tree.splitOn ";"), decVars vars, fuel.toNat? with
     | some (b, []), some vars, some fuel =>
       let text := scriptText b
@@ -116,13 +123,15 @@ def handle (toks : List String) : Option String :=
         match parseText text with
         | .error _ => "parse-error"
         | .ok is =>
-          match interpRun fuel is vars {} with
+          -- `c13s`: the halt flag may be raised from inside (`emit __halt__`), see Sdk/FlowHalt.lean
+          match (if op == "c13s" then interpRunH fuel is vars {} else interpRun fuel is vars {}) with
           | (rs, .reachedEnd) => encOutcomeVars rs.vars rs.st
           | (rs, .exitCalled) => encOutcomeVars rs.vars rs.st
           | (rs, .halted) => encOutcomeVars rs.vars rs.st
           | (_, .fail _ mi) => "fail " ++ encOptNat mi.line
           | (_, .outOfFuel) => "fuel"
       let spec :=
+        if op == "c04raw" || op == "c13s" then "fuel" else
         match runTree fuel b vars with
         | .normal t => encOutcomeVars t.vars t.sdk
         | .returning _ t => encOutcomeVars t.vars t.sdk
